@@ -27,7 +27,7 @@ Plan gen_c21(sk::Rng& r, Tier) {
         Op op;
         op.k = "announce";
         const std::int64_t kind = r.chance(3, 5) ? 0 : r.range(1, kKinds - 1);
-        const std::int64_t gap = r.pick<std::int64_t>({0, 50, I * 1000 - 300, I * 1000 + 300, I * 500, W * 1000 - 300, W * 1000 + 300, 1000, 120300, 119000, 180500, 179000, 61000});
+        const std::int64_t gap = r.pick<std::int64_t>({0, 50, I * 1000 - 300, I * 1000 + 300, I * 500, W * 1000 - 300, W * 1000 + 300, 1000, 120300, 119000, 180500, 179000, 61000, 302000});
         op.a = {static_cast<std::int64_t>(r.below(3)), static_cast<std::int64_t>(r.below(4)), kind, gap, r.pick<std::int64_t>({3, 4, 4}), static_cast<std::int64_t>(r.below(3))};
         p.ops.push_back(op);
     }
@@ -56,7 +56,7 @@ void exec_c21(const Plan& p, Ctx& ctx) {
     const int npeers = static_cast<int>(p.knob("peers", 2));
     for (int i = 0; i < npeers; ++i) if (rig.add_peer(static_cast<std::uint8_t>(0x61 + i)) < 0) { ctx.violate("C21.setup_failed", "scripted handshake failed"); rig.stop(); return; }
     std::vector<std::vector<Obs>> history(static_cast<std::size_t>(npeers));
-    struct Lock { bool active = false, ambiguous = false; std::int64_t s3 = 0, e3 = 0; std::vector<Obs> fails; };
+    struct Lock { bool any_rejection = false, tracking = false, definite = false; std::int64_t last_rejection_end = 0, s3 = 0, e3 = 0; std::vector<Obs> fresh; };
     std::vector<Lock> locks(static_cast<std::size_t>(npeers));
 
     struct Snap { std::string manifest; std::int64_t shard_exp = -1; std::int64_t contact_exp = -1; bool pending = false; bool operator==(const Snap&) const = default; };
@@ -154,36 +154,31 @@ void exec_c21(const Plan& p, Ctx& ctx) {
                 if (std::llabs(widest - window * kSec) < 400 * kMs) ctx.boundary("burst_near_window_edge");
             }
         }
-        // lockout model (conservative): rejections are counted only while the peer cannot be locked out;
-        // three of them in a row within 120 s start a lockout whose definite extent is (e3, s3 + 180 s)
+        // Lockout rule, judged only where every reading of "three rejections within 120 s lock the peer out for
+        // 180 s" agrees: starting from a clean point (no rejection of this peer in the preceding 301 s, so neither an
+        // earlier lockout nor an earlier partial count can exist), the first three rejections, with no acceptance in
+        // between, all within 120 s, start a lockout whose definite extent is (end of the third, its start + 180 s).
+        // Whether rejections received while locked out count towards the next lockout, and whether an acceptance
+        // resets the count, is left open by the statement; such histories are not judged until the next clean point.
         {
             auto& L = locks[static_cast<std::size_t>(pi)];
             const Obs cur = h.back();
-            const bool possibly_locked = L.active && cur.s < L.e3 + 181 * kSec;
-            if (L.ambiguous && cur.s < L.e3 + 181 * kSec) {
-                // three rejections spanning 120 s give or take the measurement uncertainty: the node may or may
-                // not be locking this peer out, so nothing is counted or judged until that cannot matter any more
-                ctx.probe("skipped_ambiguous_lockout");
-                if (accepted) { L.ambiguous = false; L.fails.clear(); }
-            } else if (possibly_locked) {
-                if (accepted && cur.s > L.e3 && cur.e < L.s3 + 179 * kSec)
-                    ctx.violate("C21.lockout_ignored", fmt("an announce was accepted %.3f s after the third rejection in a row (all within 120 s); lockout is 180 s", (cur.e - L.s3) / 1e9));
-                if (!accepted) ctx.probe("rejected_while_possibly_locked_out");
-                if (accepted) { L.active = false; L.fails.clear(); }
-            } else {
-                L.active = false;
-                L.ambiguous = false;
-                if (accepted) L.fails.clear();
-                else {
-                    L.fails.push_back(cur);
-                    if (L.fails.size() > 3) L.fails.erase(L.fails.begin());
-                    if (L.fails.size() == 3 && L.fails[2].e - L.fails[0].s < 119 * kSec) {
-                        L.active = true; L.s3 = L.fails[2].s; L.e3 = L.fails[2].e; L.fails.clear();
-                        ctx.boundary("three_rejections_in_a_row");
-                    } else if (L.fails.size() == 3 && L.fails[2].s - L.fails[0].e < 121 * kSec) {
-                        L.ambiguous = true; L.e3 = L.fails[2].e; L.fails.clear();
+            if (!accepted) {
+                const bool clean = !L.any_rejection || cur.s - L.last_rejection_end > 301 * kSec;
+                if (clean) { L.fresh.clear(); L.fresh.push_back(cur); L.tracking = true; L.definite = false; }
+                else if (L.tracking && !L.definite) {
+                    L.fresh.push_back(cur);
+                    if (L.fresh.size() == 3) {
+                        if (L.fresh[2].e - L.fresh[0].s < 119 * kSec) { L.definite = true; L.s3 = L.fresh[2].s; L.e3 = L.fresh[2].e; ctx.boundary("three_rejections_in_a_row"); }
+                        else { L.tracking = false; ctx.probe("three_rejections_not_within_120s"); }
                     }
-                }
+                } else if (L.definite && cur.s > L.e3 && cur.e < L.s3 + 179 * kSec) ctx.probe("rejected_while_locked_out");
+                L.any_rejection = true;
+                L.last_rejection_end = cur.e;
+            } else {
+                if (L.definite && cur.s > L.e3 && cur.e < L.s3 + 179 * kSec)
+                    ctx.violate("C21.lockout_ignored", fmt("an announce was accepted %.3f s after the third of three rejections within 120 s (no rejection in the 301 s before the first); lockout is 180 s", (cur.e - L.s3) / 1e9));
+                if (L.tracking && !L.definite) { L.tracking = false; ctx.probe("acceptance_between_rejections_not_judged"); }
             }
         }
         ctx.state(static_cast<std::uint64_t>(kind) * 4 + (accepted ? 1 : 0) + static_cast<std::uint64_t>(pi) * 64);
@@ -199,7 +194,7 @@ Scenario make_c21() {
     s.stub_components = {"OS: threads -> fibers, sockets -> simulated TCP, clock, entropy", "announcing peers are scripted processes; PoW solved by an independent reference"};
     s.assumptions = {"one-directional ('only if'): acceptance of every admissible announce is not required",
                      "handling time of an announce is only known to lie between send and barrier completion; spacing rules are judged with the widest possible gap, so boundary-exact spacings are generated but not flagged",
-                     "the lockout rule is judged for three rejections in a row (an acceptance in between may reset the count; the property does not say)"};
+                     "the lockout rule is judged only from a clean point (no rejection in the preceding 301 s) for the first three rejections with no acceptance in between; whether rejections during a lockout count again and whether an acceptance resets the count are left open by the statement"};
     s.rule = "plan = throttle triple, PoW difficulty, min TTL, 1..3 peers, network knobs + 3..22 announces (12 kinds: admissible + each inadmissibility) with gaps around the interval/window/120 s/180 s boundaries; non-trivial = acceptances spaced near a throttle boundary or three rejections in a row; distinct = plan hash";
     s.gen = gen_c21; s.exec = exec_c21; s.kernel_knobs = rig_knobs;
     s.quick_runs = 2500; s.thorough_runs = 100000; s.quick_secs = 50; s.thorough_secs = 900;
